@@ -104,12 +104,14 @@ func (n *node) RouteSendProcessID(from gen.PID, to gen.ProcessID, options gen.Me
 		return connection.SendProcessID(from, to, options, message)
 	}
 
+	lib.VerifPoint("send.load", to)
 	value, found := n.names.Load(to.Name)
 	if found == false {
 		return gen.ErrProcessUnknown
 	}
 	p := value.(*process)
 
+	lib.VerifPoint("send.alive", p)
 	if alive := p.isAlive(); alive == false {
 		return gen.ErrProcessTerminated
 	}
@@ -129,6 +131,7 @@ func (n *node) RouteSendProcessID(from gen.PID, to gen.ProcessID, options gen.Me
 	qm.Target = to.Name
 	qm.Message = message
 
+	lib.VerifPoint("send.push", p)
 	if ok := queue.Push(qm); ok == false {
 		if p.fallback.Enable == false {
 			return gen.ErrProcessMailboxFull
